@@ -1,8 +1,11 @@
 package props
 
 import (
+	"context"
 	"encoding/hex"
 	"fmt"
+	"testing"
+	"testing/synctest"
 
 	"github.com/koron-go/z80/verifsim/model"
 	"github.com/koron-go/z80/verifsim/world"
@@ -29,7 +32,11 @@ type C09Sc struct {
 // C09Ev is an event at an element boundary.
 type C09Ev struct {
 	At   int    `json:"at"`
-	Kind string `json:"kind"` // NMI | IM1 | IM2 | CRASH
+	Kind string `json:"kind"` // NMI | IM1 | IM2 | CRASH | RUNCANCEL
+	// RUNCANCEL: from this element boundary the host drives the CPU with Run
+	// (breakpoint after the instruction) and cancels it N accesses later; the
+	// rest of the operation is then resumed with Step.
+	N int `json:"n,omitempty"`
 }
 
 type c09 struct{}
@@ -178,6 +185,9 @@ func (c09) Gen(r *world.Rng, tier string, n int) interface{} {
 		kinds := []string{"NMI", "IM1", "IM2", "CRASH"}
 		if elems <= 32 && r.Chance(1, 2) && sc.Op&0x10 != 0 {
 			sc.Enumerate = kinds[r.Intn(4)]
+		} else if r.Chance(1, 8) && sc.Op&0x10 != 0 {
+			// cancellation of Run in the middle of the operation, resumed afterwards
+			sc.Events = append(sc.Events, C09Ev{At: r.Intn(elems + 1), Kind: "RUNCANCEL", N: r.Range(1, 4*elems+4)})
 		} else {
 			for i := r.Range(1, 3); i > 0; i-- {
 				sc.Events = append(sc.Events, C09Ev{At: r.Intn(elems + 1), Kind: kinds[r.Intn(4)]})
@@ -189,8 +199,30 @@ func (c09) Gen(r *world.Rng, tier string, n int) interface{} {
 
 type c09Elem struct{ r, w int32 }
 
-func (c09) Exec(sci interface{}, env *Env) *Violation {
+func (c09) Exec(sci interface{}, env *Env) (res *Violation) {
 	sc := sci.(*C09Sc)
+	for _, e := range sc.Events {
+		if e.Kind == "RUNCANCEL" && sc.Enumerate == "" {
+			// needs the synctest bubble: "the watcher has published" must be a known instant
+			if env.T == nil {
+				return viol("harness", "no *testing.T for a synctest bubble")
+			}
+			done := false
+			synctest.Test(env.T, func(t *testing.T) {
+				defer func() {
+					if r := recover(); r != nil {
+						res = viol("panic", "%v", r)
+					}
+					done = true
+				}()
+				res = c09One(sc, sc.Events, env)
+			})
+			if !done && res == nil {
+				return viol("harness", "bubble did not finish")
+			}
+			return res
+		}
+	}
 	if sc.Enumerate == "" {
 		return c09One(sc, sc.Events, env)
 	}
@@ -262,6 +294,40 @@ func c09One(sc *C09Sc, events []C09Ev, env *Env) *Violation {
 				case "CRASH":
 					m = m.Restore()
 					env.Fire("crash-restore@element-boundary")
+				case "RUNCANCEL":
+					// host switches to Run with a breakpoint behind the instruction and cancels it N accesses later
+					ctx, cancel := context.WithCancel(context.Background())
+					start := m.Bus.Tick
+					n := uint64(e.N)
+					m.Hook = func(mm *world.Machine, _ world.Acc) {
+						if mm.Bus.Tick == start+n {
+							cancel()
+							synctest.Wait()
+						}
+						if mm.Bus.Tick > start+n+600000 {
+							panic("C09: Run ignores cancellation")
+						}
+					}
+					m.CPU.BreakPoints = map[uint16]struct{}{pc + 2: {}}
+					err := m.CPU.Run(ctx)
+					cancel()
+					m.Hook, m.CPU.BreakPoints = nil, nil
+					per := uint64(4)
+					if sc.Op&3 == 1 {
+						per = 3
+					}
+					did := m.Bus.Tick - start
+					if did%per != 0 {
+						return viol("cancel-mid-element", "%s: Run cancelled %d accesses into the operation returned after %d accesses, not a whole number of elements (%d accesses each); err=%v", name, e.N, did, per, err)
+					}
+					elems += int(did / per)
+					env.Fire("run-cancelled-mid-operation-then-resumed")
+					if elems >= out.Elems {
+						goto finished
+					}
+					if m.CPU.PC != pc {
+						return viol("pc-stays-on-instruction", "%s: after a cancelled Run (%d elements done of %d) PC=%04x", name, elems, out.Elems, m.CPU.PC)
+					}
 				case "NMI":
 					m.RaiseNow(world.Event{Kind: world.EvNMI}, "elem")
 				case "IM1":
@@ -320,6 +386,7 @@ func c09One(sc *C09Sc, events []C09Ev, env *Env) *Violation {
 			return viol("pc-stays-on-instruction", "%s: PC=%04x after element %d of %d; PC must stay on the instruction until the operation is finished", name, m.CPU.PC, elems, out.Elems)
 		}
 	}
+finished:
 	env.Steps += uint64(m.Steps)
 	env.Ticks += m.Bus.Tick
 	cpu := m.CPU
